@@ -348,6 +348,20 @@ def correspondence(ctx):
             field = list(sel)
         if rng.random() < 0.04:
             n = rng.choice([0, -1])
+        seq = "plain"
+        if rng.random() < 0.3:
+            # SEQUENCE: bootstrap a triangle that is itself the result of thin (a scalar triangle has one
+            # "sample"; k = 0 gives a fresh copy) after its accessors were read
+            accessors(t)
+            st0, t0 = call(thin, t, 0, 3)
+            if st0 == "ok" and t0 is not t and w_cells(t0.cells) == w_cells(t.cells):
+                check_accessors(ctx, t0, "thin(k=0) of a scalar triangle", {"t": w_cells(t.cells)})
+                t, seq = t0, "bootstrap-of-thinned"
+            else:
+                ctx.fail("thin(t, 0) of a scalar triangle must be a fresh triangle with the same cells",
+                         {"t": w_cells(t.cells)}, {"impl": st0})
+        ctx.count(f"bootstrap/sequence={seq}")
+        before = accessors(t)
         with RngRecorder() as rec:
             res = call(bootstrap, t, n, seed, field)
         st, reps = res
@@ -373,6 +387,11 @@ def correspondence(ctx):
         ctx.case(digest=json.dumps([canon(wire_t), n, field], sort_keys=True), nontrivial=len(t) > 1,
                  sample={"op": "bootstrap", "cells": len(t), "slices": len(slices), "shapes": shapes, "n": n,
                          "field": sel_kind} if ci < 3 else None)
+        if accessors(t) != before:
+            ctx.fail("bootstrap changed the derived accessors of its INPUT", {"t": w_cells(t.cells), "n": n})
+        if st == "ok":
+            for r in reps:
+                check_accessors(ctx, r, "bootstrap replicate", {"t": w_cells(t.cells), "n": n, "seed": seed, "field": field})
         if st == "ok" and n > 0:
             # same seed => same replicates
             st2, reps2 = call(bootstrap, t, n, seed, field)
@@ -490,6 +509,18 @@ def correspondence(ctx):
         ctx.count(f"moment/fields={len(names)}")
         ctx.case(digest=json.dumps([canon(wire_t), names, dist], sort_keys=True), nontrivial=bool(names),
                  sample={"op": "moment_match", "cells": len(t), "fields": names, "dist": dist} if ci < 2 else None)
+        if st == "ok":
+            check_accessors(ctx, out, "moment_match", shown)
+            if names and rng.random() < 0.4:
+                # SEQUENCE: ruin the first result's new arrays in place, re-seed, call again
+                zero_new_arrays(t.cells, out.cells, only_fields=set(names))
+                np.random.seed(seed)
+                st2, out2 = call(moment_match, t, names, dist)
+                if st2 != "ok" or w_cells(out2.cells) != d["ok"]:
+                    ctx.fail("moment_match: second call on the same input and RNG state differs from the first",
+                             shown, {"first": d})
+                out = out2
+                ctx.count("sequence/moment-twice")
         if st == "ok" and big:
             # NUMERIC ONLY (outside the model): mean and variance scale of the new samples
             for c, o in zip(t.cells, out.cells):
@@ -546,7 +577,11 @@ if __name__ == "__main__":
              "resolution (1,3,6,12 months), positive int/float fields with exactly representable age-to-age ratios, a "
              "zero field, n 1-3 (and n<=0), field None/str/subset/all; (iii) thin of sample triangles (2-8 distinct "
              "samples, scalars, length-1 arrays, mixed) for k below, at and above the sample count, seeds incl. None; "
-             "(iv) moment_match on the same kind of triangle, three distributions, field subsets, bad names. "
+             "(iv) moment_match on the same kind of triangle, three distributions, field subsets, bad names; "
+             "SEQUENCES: thin of a thinned triangle (k at / above / below ITS count), thin after moment_match, bootstrap "
+             "of a thinned triangle, every operation twice on the same input (first result's new arrays zeroed in "
+             "between), default seed argument, accessors (num_samples, fields, slices, periods, evaluation_dates) read "
+             "on inputs beforehand and compared on every output with values recomputed from its cells. "
              "distinct = distinct canonical input; non-trivial = more than one cell / sample",
         assumptions=[
             "OUTSIDE THE MODEL: numpy's RNG. Generator.choice/uniform of np.random.default_rng and np.random.normal/"
